@@ -8,6 +8,7 @@ import TlshVerif.Spec.Tlsh
 import TlshVerif.Ref.Justify
 import TlshVerif.Lemmas.Update
 import TlshVerif.Lemmas.Generate
+import TlshVerif.Lemmas.Pairings
 
 namespace TlshVerif.Theorems.C01
 
@@ -21,6 +22,13 @@ theorem tables : Gen.rawParams = Ref.rawParams := by decide +kernel
 model instantiated with the reference constants. -/
 theorem params_eq : Gen.params = Ref.params := by
   unfold Gen.params Ref.params; rw [tables]
+
+/-- The six bucket-increment statements of `update` commute, so the order in which the source
+writes them (`Gen.pairingsSrc`) is irrelevant: the model at the canonical order (`Gen.pairings`, the
+one compared with the reference by `tables`) is the model of the source order. -/
+theorem pairings_order_irrelevant (cfg : Cfg) (v : Variant) :
+    genUpdate (withPairings Gen.params Gen.pairingsSrc) cfg v = genUpdate Gen.params cfg v :=
+  genUpdate_perm Gen.params Gen.pairingsSrc (by decide +kernel) cfg v
 
 /-- **Main theorem.**  For every valid variant, every build configuration, every
 option setting and every byte string (of any length, including ≥ 4 GiB), the
